@@ -86,6 +86,8 @@ def resStr : Resp → String
   | .rejected .errAllZero => "rejected allzero set=none"
   | .rejected _ => "rejected other set=none"
 
+def keyStr (u : URL) : String := l2s (esc u.scheme) ++ "|" ++ l2s (esc u.host) ++ "|" ++ l2s (esc u.path)
+
 def urlOf (tok : String) : Option URL :=
   match unesc (s2l tok) with
   | none => none
@@ -103,13 +105,16 @@ def step (st : St) (f : List String) : St × String :=
     | some w =>
       match urlOf u with
       | none => (st, "err badurl")
-      | some u => ({ st with lb := st.lb.upsert u w }, "ok")
+      | some u =>
+        let lb := st.lb.upsert u w
+        let wt := match lb.srvs.find? (fun s => s.url.key == u.key) with | some s => s.w | none => 0
+        ({ st with lb := lb }, "ok " ++ l2s (esc (render u)) ++ "," ++ toString wt ++ "," ++ keyStr u)
   | ["remove", u] =>
     match urlOf u with
     | none => (st, "err badurl")
     | some u =>
       match st.lb.remove u with
-      | some lb => ({ st with lb := lb }, "ok")
+      | some lb => ({ st with lb := lb }, "ok " ++ keyStr u)
       | none => (st, "err notfound")
   | ["servers"] =>
     (st, st.lb.srvs.foldl (fun acc s => acc ++ " " ++ l2s (esc (render s.url)) ++ "," ++ toString s.w ++ ","
